@@ -12,7 +12,6 @@ use std::time::{Duration, Instant};
 use futures::{SinkExt, StreamExt};
 use hyperqueue::common::serverdir::ServerDir;
 use hyperqueue::server::Senders;
-use hyperqueue::server::autoalloc::create_autoalloc_service;
 use hyperqueue::server::client::client_rpc_loop;
 use hyperqueue::server::event::Event;
 use hyperqueue::server::event::journal::EventStreamMessage;
@@ -324,6 +323,8 @@ pub struct World {
     pub server: VerifServer,
     pub state_ref: StateRef,
     pub senders: Senders,
+    /// what the job layer told the autoalloc service (worker connects / losses of workers started inside allocations)
+    pub alloc_rx: RefCell<hyperqueue::verif::autoalloc::VerifNoticeReceiver>,
     pub callbacks: Rc<RefCell<Vec<Callback>>>,
     pub events: EventRx,
     pub launch: Rc<RefCell<LaunchCtl>>,
@@ -426,8 +427,8 @@ impl World {
         events.register_listener(EventFilter::all_events(), etx);
         let erx: EventRx = Rc::new(RefCell::new(erx));
         let server_ref = server.server_ref();
-        let (autoalloc, _process) = create_autoalloc_service(server_ref.clone(), 1, events.clone());
-        drop(_process);
+        // the service the job layer notifies about workers of allocations; its messages are inspected by the simulator
+        let (autoalloc, alloc_rx) = hyperqueue::verif::autoalloc::recording_service();
         let senders = Senders { server_control: server_ref, events, autoalloc };
         let callbacks = Rc::new(RefCell::new(Vec::new()));
         let inner = hyperqueue::verif::job::make_event_processor(state_ref.clone(), senders.clone());
@@ -458,6 +459,7 @@ impl World {
             server,
             state_ref,
             senders,
+            alloc_rx: RefCell::new(alloc_rx),
             callbacks,
             events: erx,
             launch: Default::default(),
